@@ -18,6 +18,11 @@ The model mirrors the code WITH the repairs patches/C08-run-tasks-cancel.diff (`
 cancels what it did not await to the end), patches/C04-no-timer-after-stop.diff (a stopped
 FSM arms no timer), patches/C08-wait-init-helper.diff (`wait_init` cancels its helper).
 
+Two behaviours of the code that contradict the property are modelled as they are (known
+findings, see known_findings.json): a 'start' event reaching a timer block that was never
+started arms a timer nobody stops (`arm` only looks at `stopped`), and an OutputAsync block that
+was never initialised loses its stop_data (`outaDelivers`).
+
 Time: natural numbers (the harness uses milliseconds of the virtual clock); instant 0 is the
 moment `run_forever` yields after the `start()` loop.
 asyncio rules the model relies on (validated by the correspondence, not proved):
@@ -137,6 +142,25 @@ def Job.atCancel (l : Nat) (j : Job) : JobEnd :=
 /-- `sorted(btt_list, key=timeout, reverse=True)` – stable -/
 def sortJobs (js : List Job) : List Job := js.mergeSort (fun a b => b.timeout ≤ a.timeout)
 
+/-- the task is done at `now` -/
+def Job.doneBy (j : Job) (now : Nat) : Bool :=
+  match j.dur with
+  | some d => decide (d ≤ now)
+  | none => false
+
+/-- `wait_for(task, timeout - now)` started at `now` on a task that is not done: the instant it
+    returns and how (a non-positive time-out cancels at once) -/
+def Job.wake (j : Job) (now : Nat) : Nat × Res :=
+  match j.dur with
+  | some d => if d < max now j.timeout then (d, j.fin) else (max now j.timeout, .timeout)
+  | none => (max now j.timeout, .timeout)
+
+/-- the awaiting task is cancelled at `l` before the instant `w` -/
+def cancelledBefore (limit : Option Nat) (w : Nat) : Option Nat :=
+  match limit with
+  | some l => if l < w then some l else none
+  | none => none
+
 /--
 The loop of `_run_tasks` over the sorted jobs; `now` = time elapsed since the tasks were
 created; `limit` = instant at which the awaiting task itself is cancelled (if ever).
@@ -145,28 +169,18 @@ Returns the fate of every job, the instant the loop ended and whether it was can
 def awaitJobs (limit : Option Nat) : Nat → List Job → List JobEnd × Nat × Bool
   | now, [] => ([], now, false)
   | now, j :: js =>
-    let isDone := match j.dur with | some d => decide (d ≤ now) | none => false
-    if isDone then
+    if j.doneBy now then
       let r := awaitJobs limit now js
       (⟨j.k, j.dur.getD now, j.fin⟩ :: r.1, r.2)
     else
-      let deadline := max now j.timeout
-      let fin : Option Nat := match j.dur with
-        | some d => if d < deadline then some d else none
-        | none => none
-      let wake := fin.getD deadline
-      match limit with
+      match cancelledBefore limit (j.wake now).1 with
       | some l =>
-        if l < wake then
-          -- CancelledError in wait_for: the awaited task is cancelled with it; the `finally`
-          -- clause cancels every other task that is not done
-          (⟨j.k, l, .cancelled⟩ :: js.map (Job.atCancel l), l, true)
-        else
-          let r := awaitJobs limit wake js
-          (⟨j.k, wake, if fin.isSome then j.fin else .timeout⟩ :: r.1, r.2)
+        -- CancelledError in wait_for: the awaited task is cancelled with it; the `finally`
+        -- clause cancels every other task that is not done
+        (⟨j.k, l, .cancelled⟩ :: js.map (Job.atCancel l), l, true)
       | none =>
-        let r := awaitJobs limit wake js
-        (⟨j.k, wake, if fin.isSome then j.fin else .timeout⟩ :: r.1, r.2)
+        let r := awaitJobs limit (j.wake now).1 js
+        (⟨j.k, (j.wake now).1, (j.wake now).2⟩ :: r.1, r.2)
 
 /-! ### start -/
 
@@ -175,15 +189,15 @@ def Blk.hasCtrl (b : Blk) : Bool := b.kind == .outa
 /-- `_stop_sblocks`: AddonAsync block with a stop_async method and stop_timeout > 0 -/
 def Blk.asyncStop (b : Blk) : Bool := (b.kind == .async || b.kind == .outa) && decide (0 < b.stopTimeout)
 
-/-- the `for blk in getblocks(): blk.start(); started_blocks.add(blk)` loop:
-    events, started blocks, whether a start() raised -/
-def startLoop : List (Nat × Blk) → List Ev × List Nat × Bool
-  | [] => ([], [], false)
-  | (k, b) :: rest =>
-    if b.fStart then ([.start k], [], true)
+/-- the `for blk in getblocks(): blk.start(); started_blocks.add(blk)` loop over the blocks
+    `i, i+1, …`: events, started blocks, whether a start() raised -/
+def startLoop : Nat → List Blk → List Ev × List Nat × Bool
+  | _, [] => ([], [], false)
+  | i, b :: rest =>
+    if b.fStart then ([.start i], [], true)
     else
-      let r := startLoop rest
-      (.start k :: .started k :: r.1, k :: r.2.1, r.2.2)
+      let r := startLoop (i + 1) rest
+      (.start i :: .started i :: r.1, i :: r.2.1, r.2.2)
 
 def enum (bs : List Blk) : List (Nat × Blk) := bs.zipIdx.map (fun p => (p.2, p.1))
 
@@ -327,7 +341,7 @@ def firstMainFail (bs : List Blk) (started : List Nat) : Option (Nat × Nat) :=
         | none => some (t, k))
     | _, _ => acc) none
 
-/-- tasks owned by the started blocks while the simulation runs -/
+/-- tasks owned by the started blocks when the clean-up begins -/
 def blockTasks (bs : List Blk) (started : List Nat) (failed : List Nat) : List Task :=
   started.filterMap fun k =>
     let b := blk bs k
@@ -344,76 +358,106 @@ def Task.cleanedBy (oa : List Nat) : Task → Bool
 
 def permOf (l s : List Nat) : Bool := l.isPerm s
 
-def runForever (c : Cfg) : Option Result :=
+/-- timer blocks that the second initialisation pass left in a timed state -/
+def initTimers (bs : List Blk) (started pass2 : List Nat) : List Nat :=
+  started.filter fun k => pass2.contains k && (blk bs k).kind == .timer && (blk bs k).armed
+
+/-- output functions that the application calls once the circuit runs -/
+def putBlocksOf (bs : List Blk) (started : List Nat) (phase : Phase) : List Nat :=
+  if phase == .running then started.filter (fun k => (blk bs k).kind == .outf) else []
+
+/-- the on_success events of these calls ('start' to a timer block) -/
+def armAll (bs : List Blk) (s : CState) (ks : List Nat) : CState :=
+  ks.foldl (fun s k => match (blk bs k).onSuccess with | some j => arm bs s j | none => s) s
+
+/-- everything that happened before the clean-up -/
+structure Plan where
+  startEvs : List Ev          -- events of the start loop
+  started : List Nat          -- started_blocks
+  phase : Phase               -- where the simulation was when it was terminated
+  termTime : Nat
+  isError : Bool              -- Circuit._error is not a CancelledError
+  initRes : List JobEnd
+  failed : List Nat           -- main tasks that have raised / returned by now
+  inited : List Nat           -- blocks whose second initialisation pass completed
+  puts : List Ev              -- output functions called by the running circuit
+  timers : List Nat           -- timer handles pending when the clean-up begins
+  helper : Bool               -- wait_init() is still waiting
+  deriving Repr, Inhabited
+
+def plan (c : Cfg) : Plan :=
   let bs := c.blocks
+  let sl := startLoop 0 bs
+  let started := sl.2.1
+  let startFailed := sl.2.2
+  -- who terminates the simulation if start-up and initialisation succeed: the external
+  -- request or the first failing main task (`_task_monitor` calls abort())
+  let ext : Nat × Bool :=
+    match firstMainFail bs started with
+    | some (t, _) => if t < c.cause.time then (t, true) else (c.cause.time, c.cause.kind.isError)
+    | none => (c.cause.time, c.cause.kind.isError)
+  let tX := ext.1
+  -- initialisation
+  let ir := awaitJobs (some tX) 0 (sortJobs (initJobs bs))
+  let asyncOk : Nat → Bool := fun k => ir.1.any fun e => e.k == k && e.res == .ok
+  let s2 := sync2 asyncOk (enum bs)
+  let allInit := (enum bs).all fun (k, b) => b.initialized asyncOk k
+  let calcFails := bs.any fun b => b.kind == .cblock && b.fCalc
+  -- phase in which the simulation was terminated, instant, error?, init results
+  let term : Phase × Nat × Bool × List JobEnd :=
+    if startFailed then (.startFailed, 0, true, [])
+    else if tX == 0 then (.afterStart, 0, ext.2, [])
+    else if ir.2.2 then (.asyncInit, tX, ext.2, ir.1)
+    else if s2.2 || !allInit then (.initFailed, ir.2.1, true, ir.1)
+    else if calcFails then (.evalFailed, ir.2.1, true, ir.1)
+    else (.running, tX, ext.2, ir.1)
+  let phase := term.1
+  let tT := term.2.1
+  let failed := started.filter fun k => (blk bs k).kind == .async &&
+    (match (blk bs k).mainFailAt with | some t => decide (t ≤ tT) | none => false)
+  -- timers armed by the initialisation (pass 2) and by the output events of the running circuit
+  let pass2 : List Nat :=
+    if phase == .initFailed || phase == .evalFailed || phase == .running then s2.1 else []
+  let putBlocks := putBlocksOf bs started phase
+  let sRun := armAll bs { timers := initTimers bs started pass2, stopped := [] } putBlocks
+  let initDone := phase == .evalFailed || phase == .running
+  { startEvs := sl.1, started := started, phase := phase, termTime := tT, isError := term.2.2.1
+    initRes := term.2.2.2, failed := failed, inited := pass2
+    puts := putBlocks.map (Ev.out · false), timers := sRun.timers
+    helper := c.waitInit && !initDone }
+
+/-- the sets handed to `_stop_sblocks` -/
+def setA (bs : List Blk) (started : List Nat) : List Nat := started.filter fun k => (blk bs k).asyncStop
+def setS (bs : List Blk) (started : List Nat) : List Nat := started.filter fun k => !(blk bs k).asyncStop
+
+/-- the clean-up of `run_forever` after the events of `p`; `none`: `oa`/`os` are not
+    enumerations of the two sets -/
+def finish (c : Cfg) (p : Plan) : Option Result :=
+  let bs := c.blocks
+  if !(permOf c.oa (setA bs p.started) && permOf c.os (setS bs p.started)) then none
+  else
+    let cl := stopSblocks bs p.failed p.inited p.timers c.oa c.os
+    let tasks0 := blockTasks bs p.started p.failed ++ (if p.helper then [Task.helper] else [])
+    -- stop_async took the block tasks away; wait_init cancels its helper when the simulation task is done
+    let tasks1 := (tasks0.filter fun t => !t.cleanedBy c.oa).filter (· != Task.helper)
+    some {
+      trace := p.startEvs ++ p.puts ++ cl.trace
+      started := p.started
+      startOk := p.phase != .startFailed && p.phase != .afterStart
+      phase := p.phase
+      initRes := p.initRes
+      termTime := p.termTime
+      endTime := p.termTime + cl.dur
+      tasks := tasks1
+      timers := cl.st.timers
+      error := some (if p.isError then .failure else .cancelled)
+      simDone := true }
+
+def runForever (c : Cfg) : Option Result :=
   if c.cause.before then
     -- `raise self._error` before anything was started
     some { error := some (if c.cause.kind.isError then .failure else .cancelled), simDone := true }
-  else
-    let sl := startLoop (enum bs)
-    let started := sl.2.1
-    let startFailed := sl.2.2
-    -- who terminates the simulation if start-up and initialisation succeed
-    let mf := firstMainFail bs started
-    let ext : Nat × Option Nat × Bool :=      -- instant, failed main task, is an error
-      match mf with
-      | some (t, k) => if t < c.cause.time then (t, some k, true) else (c.cause.time, none, c.cause.kind.isError)
-      | none => (c.cause.time, none, c.cause.kind.isError)
-    let tX := ext.1
-    -- initialisation
-    let jobs := sortJobs (initJobs bs)
-    let ir := awaitJobs (some tX) 0 jobs
-    let asyncOk : Nat → Bool := fun k => ir.1.any fun e => e.k == k && e.res == .ok
-    let s2 := sync2 asyncOk (enum bs)
-    let allInit := (enum bs).all fun (k, b) => b.initialized asyncOk k
-    let calcFails := bs.any fun b => b.kind == .cblock && b.fCalc
-    -- phase in which the simulation was terminated, instant, failed main, error?, init results
-    let term : Phase × Nat × Option Nat × Bool × List JobEnd :=
-      if startFailed then (.startFailed, 0, none, true, [])
-      else if tX == 0 then (.afterStart, 0, ext.2.1, ext.2.2, [])
-      else if ir.2.2 then (.asyncInit, tX, ext.2.1, ext.2.2, ir.1)
-      else if s2.2 || !allInit then (.initFailed, ir.2.1, none, true, ir.1)
-      else if calcFails then (.evalFailed, ir.2.1, none, true, ir.1)
-      else (.running, tX, ext.2.1, ext.2.2, ir.1)
-    let phase := term.1
-    let tT := term.2.1
-    -- main tasks that have raised / returned by now (`_task_monitor` reported the first one)
-    let failed := started.filter fun k => (blk bs k).kind == .async &&
-      (match (blk bs k).mainFailAt with | some t => decide (t ≤ tT) | none => false)
-    let startOk := phase != .startFailed && phase != .afterStart
-    -- timers armed by the initialisation (pass 2) and by the output events of the running circuit
-    let pass2 : List Nat :=
-      if phase == .initFailed || phase == .evalFailed || phase == .running then s2.1 else []
-    let t1 : List Nat := pass2.filter fun k => (blk bs k).kind == .timer && (blk bs k).armed
-    let putBlocks : List Nat :=
-      if phase == .running then started.filter (fun k => (blk bs k).kind == .outf) else []
-    let sRun := putBlocks.foldl (fun s k =>
-        match (blk bs k).onSuccess with | some j => arm bs s j | none => s)
-        ({ timers := t1, stopped := [] } : CState)
-    let puts := putBlocks.map (Ev.out · false)
-    -- the sets handed to _stop_sblocks
-    let setA := started.filter fun k => (blk bs k).asyncStop
-    let setS := started.filter fun k => !(blk bs k).asyncStop
-    if !(permOf c.oa setA && permOf c.os setS) then none
-    else
-      let cl := stopSblocks bs failed pass2 sRun.timers c.oa c.os
-      let initDone := phase == .evalFailed || phase == .running
-      let tasks0 := blockTasks bs started failed
-        ++ (if c.waitInit && !initDone then [Task.helper] else [])
-      -- stop_async took the block tasks away; wait_init cancels its helper when the simulation task is done
-      let tasks1 := (tasks0.filter fun t => !t.cleanedBy c.oa).filter (· != Task.helper)
-      some {
-        trace := sl.1 ++ puts ++ cl.trace
-        started := started
-        startOk := startOk
-        phase := phase
-        initRes := term.2.2.2.2
-        termTime := tT
-        endTime := tT + cl.dur
-        tasks := tasks1
-        timers := cl.st.timers
-        error := some (if term.2.2.2.1 then .failure else .cancelled)
-        simDone := true }
+  else finish c (plan c)
 
 /-! ### after the run -/
 
